@@ -685,7 +685,7 @@ def choose_mutation(rng, t, a, objs, canon, free, ptxt, effects_ok, same_valued)
     return m
 
 
-def omo_input(rng, n_steps, free):
+def omo_input(rng, n_steps, free, max_states=13):
     """free: constructor-built states over names the fixed domain does not declare (no library reader in the loop,
     facts and fluents are renamed in place); otherwise the states come from the parsers, the library's reader reads
     every text back, and grounded effects are applied in place"""
@@ -743,7 +743,7 @@ def omo_input(rng, n_steps, free):
         cur = list(cur)
         cur[t] = new
         build = []
-        if new is not None and len(descrs) < 13:
+        if new is not None and len(descrs) < max_states:
             base = len(descrs)
             build.append(dict(ctor_from_abstract(new, types=dict(objs)), want=new, kind="omo:fresh-ctor"))
             build.append({"route": "copy", "of": t, "want": new, "kind": "omo:copy-now"})
@@ -789,8 +789,9 @@ def omo_job(q):
 
 
 def build_omos(rng, tier):
-    n = 12 if tier == "quick" else 70
-    return [omo_input(rng, rng.randint(3, 5) if tier == "quick" else rng.randint(3, 8), free=(k % 4 == 3)) for k in range(n)]
+    n = 8 if tier == "quick" else 64
+    return [omo_input(rng, rng.randint(3, 4) if tier == "quick" else rng.randint(3, 8), free=(k % 4 == 3),
+                      max_states=10 if tier == "quick" else 13) for k in range(n)]
 
 
 def has_repeat(st):
@@ -1249,6 +1250,12 @@ def run(args):
                    "successors by Operator.apply of the parsed state and of its copy; all ordered pairs inside each group are compared.  Observed: ==, "
                    "serialize() (exact text vs the model; re-read by the model's reader vs the intended state), copy()==, copy().serialize(), and a "
                    "mutation test (every field State.copy copies is changed on the copy, the original must not change, and vice versa).  "
+                   "OBSERVE-MUTATE-OBSERVE: states from every route are dumped, observed and compared (all ordered pairs), then ONE existing object is changed in place "
+                   "through its public attributes (fact added / discarded / removed, a set replaced or cleared, a predicate key added or deleted, set_value incl. the other "
+                   "zero, the neighbour by one ulp and an int, a fluent put / deleted / replaced, fact and fluent objects given another name / object_mapping / signature, the "
+                   "dicts rebuilt, is_init flipped, GroundedEffect.apply on the state itself), fresh states with the new contents, a copy made now, a successor made now "
+                   "are added, and EVERY state is dumped, observed and compared again against the contents it is intended to have at that moment -- one group per moment.  "
+                   "Also observed since wave 3: typed_serialize() of the state and of its copy (model text; types dropped and re-read against the intended state) and hash(state).  "
                    "A case is non-trivial when the state is non-empty (state cases) or the two states are different objects (pair cases); distinct by input hash.")
     cov["samples"] = [c["input"] for c in cases[1:3]] + [c["input"] for c in cases[-2:]]
     rep.assumptions = [
